@@ -21,6 +21,7 @@ import (
 	"strings"
 	"sync"
 	"sync/atomic"
+	"testing/iotest"
 	"time"
 
 	app "github.com/Dash-Industry-Forum/livesim2/cmd/cmaf-ingest-receiver/app"
@@ -266,7 +267,17 @@ func segment(tr Track, seq uint32) []byte {
 }
 
 func put(router http.Handler, url string, body []byte, auth bool) int {
-	req := httptest.NewRequest(http.MethodPut, url, bytes.NewReader(body))
+	return putReader(router, url, body, auth, false)
+}
+
+// dataWithEOF: the body's last read returns its data together with io.EOF (what a net/http body with
+// Content-Length usually does) instead of (0, io.EOF) on a further read
+func putReader(router http.Handler, url string, body []byte, auth, dataWithEOF bool) int {
+	var rd io.Reader = bytes.NewReader(body)
+	if dataWithEOF {
+		rd = iotest.DataErrReader(rd)
+	}
+	req := httptest.NewRequest(http.MethodPut, url, rd)
 	req.ContentLength = int64(len(body))
 	req.Header.Set("Content-Length", strconv.Itoa(len(body)))
 	if auth {
@@ -406,14 +417,15 @@ func runOnce(si, round int, sc Scenario) Outcome {
 			if i >= half {
 				count(put(rcv.Router, fmt.Sprintf("/upload/%s/%s/init%s", chn, tr.Name, tr.Ext), inits[tr.Name], true))
 			}
-			count(put(rcv.Router, fmt.Sprintf("/upload/%s/%s/2%s", chn, tr.Name, tr.Ext), seg2, true))
+			withEOF := sc.Raw && (round+i)%2 == 0 // raw mode copies the body itself: both ways a body can end
+			count(putReader(rcv.Router, fmt.Sprintf("/upload/%s/%s/2%s", chn, tr.Name, tr.Ext), seg2, true, withEOF))
 			if sc.Raw {
 				// the restarted receiver counts its raw files from 0 again: it writes over the files of the earlier run,
 				// the first one with a longer body, the second one with a shorter body
 				last := [2][]byte{inits[tr.Name], seg2}
 				if i < half {
 					short := seg2[:len(seg2)/3]
-					count(put(rcv.Router, fmt.Sprintf("/upload/%s/%s/3%s", chn, tr.Name, tr.Ext), short, true))
+					count(putReader(rcv.Router, fmt.Sprintf("/upload/%s/%s/3%s", chn, tr.Name, tr.Ext), short, true, !withEOF))
 					last = [2][]byte{seg2, short}
 				}
 				for k, want := range last {
